@@ -24,7 +24,7 @@ CHECKS = {
               _run("connect", ["--ops", "6", "--dev", "3"], ["--ops", "12", "--dev", "6"], ["--ops", "20", "--dev", "10"]),
               _run("accept", ["--ops", "6", "--dev", "3"], ["--ops", "12", "--dev", "6"], ["--ops", "30", "--dev", "15"]),
               _run("duplex", ["--ops", "6", "--dev", "2"], ["--ops", "10", "--dev", "4"], ["--ops", "14", "--dev", "6"])],
-        deadline=dict(quick=150, thorough=1200),
+        deadline=dict(quick=300, thorough=1800),
         bounds=dict(quick="per sub-driver: <=6 program steps (start/run/cancel/timer-cancel), <=3 kernel deviations; requests (buflen,min) in {(1,1),(3,1),(4,2),(4,4),(6,3),(5,0)}; peer scripts 0..7 bytes ending EOF/ECONNRESET/silence; address lists 0..3 x 7 behaviours, with/without timeout",
                     thorough="<=12 program steps, <=6 kernel deviations (duplex <=10 / <=4); read/write with 9 request shapes, 3 requests per execution and scripts of 0..11 bytes, same alphabets",
                     deep="as thorough with read <=24 steps / <=12 deviations, write <=30 / <=15, connect <=20 / <=10 (state count saturates: 12 167 states at 12/6, 12 215 at 16/8), accept <=30 / <=15, duplex <=14 / <=6"),
